@@ -31,6 +31,7 @@ type vfEnv struct {
 	A, B  int
 	I64   int64
 	U8    uint8
+	I8    int8
 	F     float64
 	P, Q  bool
 	S, T  string
@@ -51,6 +52,7 @@ type vfEnv struct {
 	FnI64 func(int64) int64
 	Vf    func(string, ...interface{}) interface{}
 	Vv    func(...interface{}) interface{}
+	Pair  func(...interface{}) interface{}
 }
 
 func (e vfEnv) Twice(x int) int {
@@ -88,6 +90,9 @@ func vfMakeEnv(src string, maxLen int) *vfEnv {
 	}
 	if uses("U8") {
 		e.U8 = vfUint8("U8")
+	}
+	if uses("I8") {
+		e.I8 = vfInt8("I8")
 	}
 	if uses("F") {
 		e.F = vfFloat64("F")
@@ -175,14 +180,15 @@ func vfMakeEnv(src string, maxLen int) *vfEnv {
 	e.FnI64 = func(x int64) int64 { vfLog = append(vfLog, vfCall{"FnI64", int(x), 0}); return x }
 	e.Vf = func(f string, xs ...interface{}) interface{} { return len(xs) }
 	e.Vv = func(xs ...interface{}) interface{} { return len(xs) }
+	e.Pair = func(xs ...interface{}) interface{} { return xs } // keeps its argument slice
 	return e
 }
 
 func (e *vfEnv) asMap() map[string]interface{} {
 	return map[string]interface{}{
-		"A": e.A, "B": e.B, "I64": e.I64, "U8": e.U8, "F": e.F, "P": e.P, "Q": e.Q, "S": e.S, "T": e.T,
+		"A": e.A, "B": e.B, "I64": e.I64, "U8": e.U8, "I8": e.I8, "F": e.F, "P": e.P, "Q": e.Q, "S": e.S, "T": e.T,
 		"Xs": e.Xs, "Ys": e.Ys, "Xss": e.Xss, "Ss": e.Ss, "Any": e.Any, "M": e.M, "Ptr": e.Ptr, "Fn": e.Fn, "Gn": e.Gn, "Pf": e.Pf, "Qf": e.Qf, "Hf": e.Hf,
-		"FnU8": e.FnU8, "FnF": e.FnF, "FnI64": e.FnI64, "Vf": e.Vf, "Vv": e.Vv,
+		"FnU8": e.FnU8, "FnF": e.FnF, "FnI64": e.FnI64, "Vf": e.Vf, "Vv": e.Vv, "Pair": e.Pair,
 	}
 }
 
@@ -222,6 +228,8 @@ func (r *vfRef) ident(name string) interface{} {
 		return e.I64
 	case "U8":
 		return e.U8
+	case "I8":
+		return e.I8
 	case "F":
 		return e.F
 	case "P":
@@ -251,17 +259,19 @@ func (r *vfRef) ident(name string) interface{} {
 	return nil
 }
 
-// numeric tower of the harness environment: uint8 < int < int64 < float64 (the rank order of C14)
+// numeric tower of the harness environment: uint8 < int < int8 < int64 < float64 (the rank order of C14)
 func vfRank(v interface{}) int {
 	switch v.(type) {
 	case uint8:
 		return 1
 	case int:
 		return 2
-	case int64:
+	case int8:
 		return 3
-	case float64:
+	case int64:
 		return 4
+	case float64:
+		return 5
 	}
 	return 0
 }
@@ -280,17 +290,30 @@ func vfTo(v interface{}, rank int) interface{} {
 	case 3:
 		switch x := v.(type) {
 		case uint8:
-			return int64(x)
+			return int8(x)
 		case int:
-			return int64(x)
-		case int64:
+			return int8(x)
+		case int8:
 			return x
 		}
 	case 4:
 		switch x := v.(type) {
 		case uint8:
+			return int64(x)
+		case int:
+			return int64(x)
+		case int8:
+			return int64(x)
+		case int64:
+			return x
+		}
+	case 5:
+		switch x := v.(type) {
+		case uint8:
 			return float64(x)
 		case int:
+			return float64(x)
+		case int8:
 			return float64(x)
 		case int64:
 			return float64(x)
@@ -373,7 +396,7 @@ func (r *vfRef) arith(op string, a, b interface{}) interface{} {
 			return x == y
 		}
 	case 3:
-		x, y := a.(int64), b.(int64)
+		x, y := a.(int8), b.(int8)
 		switch op {
 		case "+":
 			return x + y
@@ -403,6 +426,36 @@ func (r *vfRef) arith(op string, a, b interface{}) interface{} {
 			return x == y
 		}
 	case 4:
+		x, y := a.(int64), b.(int64)
+		switch op {
+		case "+":
+			return x + y
+		case "-":
+			return x - y
+		case "*":
+			return x * y
+		case "/":
+			if y == 0 {
+				vfFailf("division by zero")
+			}
+			return x / y
+		case "%":
+			if y == 0 {
+				vfFailf("division by zero")
+			}
+			return x % y
+		case "<":
+			return x < y
+		case "<=":
+			return x <= y
+		case ">":
+			return x > y
+		case ">=":
+			return x >= y
+		case "==":
+			return x == y
+		}
+	case 5:
 		x, y := a.(float64), b.(float64)
 		switch op {
 		case "+":
@@ -537,6 +590,8 @@ func (r *vfRef) integer(v interface{}) int {
 		return int(x)
 	case int64:
 		return int(x)
+	case int8:
+		return int(x)
 	}
 	vfFailf("non-integer operand")
 	return 0
@@ -573,6 +628,8 @@ func (r *vfRef) eval(n ast.Node) interface{} {
 			case int64:
 				return -y
 			case uint8:
+				return -y
+			case int8:
 				return -y
 			case float64:
 				return -y
@@ -690,7 +747,7 @@ func (r *vfRef) binary(x *ast.BinaryNode) interface{} {
 		if vfRank(a) == 0 || vfRank(b) == 0 {
 			vfFailf("** on non-number")
 		}
-		return math.Pow(vfTo(a, 4).(float64), vfTo(b, 4).(float64))
+		return math.Pow(vfTo(a, 5).(float64), vfTo(b, 5).(float64))
 	case "contains":
 		return strings.Contains(r.str(a), r.str(b))
 	case "startsWith":
@@ -890,6 +947,12 @@ func (r *vfRef) call(name string, args []interface{}) interface{} {
 		return e.FnI64(args[0].(int64))
 	case "FnF":
 		return e.FnF(args[0].(float64))
+	case "Pair":
+		return append([]interface{}{}, args...)
+	case "Vv":
+		return len(args)
+	case "Vf":
+		return len(args) - 1
 	}
 	vfFailf("unknown function " + name)
 	return nil
